@@ -1737,7 +1737,7 @@ def check_ranges(ctx, exe, d, n_strings, n_big):
             ctx.count(1, key=("range-model", c[5]), nontrivial=True)
             if m != c[2]:
                 ctx.broken("correspondence:range-model-vs-spec", "%s: extracted model %r, SPEC %r" % (c[5][:200], m, c[2]))
-    pdir = os.path.join(B.SCRATCH, "c12-ranges")
+    pdir = os.path.join(B.SCRATCH, "c12-ranges-%d" % os.getpid())      # per process: two C12 checks running at once must not share (or remove) the file
     os.makedirs(pdir, exist_ok=True)
     path = os.path.join(pdir, "io.bin")
     prelude = open(os.path.join(HARNESS, "c12_hist.scm")).read()
